@@ -89,7 +89,7 @@ PROPS = {
         explanation='classification half of C18: every is_* predicate of nom/src/xmlchar.rs equals the production range table for every char; Verus (SMT, all chars) and Kani (loop-free, kani::any::<char>(), complete) as two independent back ends',
     ),
     'C09': dict(
-        standin_ops=['xpath.func.floor', 'xpath.func.ceiling', 'xpath.func.round', 'xpath.func.boolean', 'xpath.func.not', 'xpath.func.number', 'xpath.func.substring', 'xpath.func.string_length', 'xpath.cmp.equal_value', 'xpath.cmp.not_equal_value', 'xpath.cmp.less_than_value', 'xpath.cmp.less_eq_value', 'xpath.cmp.greater_than_value', 'xpath.cmp.greater_eq_value', 'xpath.op.neg'],
+        standin_ops=['xpath.func.floor', 'xpath.func.ceiling', 'xpath.func.round', 'xpath.func.boolean', 'xpath.func.not', 'xpath.func.number', 'xpath.func.substring', 'xpath.func.string_length', 'xpath.func.translate', 'xpath.cmp.equal_value', 'xpath.cmp.not_equal_value', 'xpath.cmp.less_than_value', 'xpath.cmp.less_eq_value', 'xpath.cmp.greater_than_value', 'xpath.cmp.greater_eq_value', 'xpath.op.neg'],
         verus_units=['func_strings'],
         kani=['c09'],
         level='proof',
@@ -98,8 +98,8 @@ PROPS = {
                      'CBMC reports NaN-producing float operations (inf - inf inside round, inf + -inf, inf * 0) as failed checks of class "NaN on ..."; NaN is specified XPath behaviour, so that class is classified as expected and only assertion/panic/integer classes count',
                      'substring_range is proved for string lengths up to 2^53 characters (positions beyond are not representable as XPath numbers)',
                      'Verus side: String::try_from(&Value) / f64::try_from(&Value) are assumed callees (what an argument converts to is an uninterpreted function of the argument); substring_range enters the Verus unit through the part of its contract Kani proves (ordered, within the string)'],
-        not_decided='number<->string lexical forms (f64::to_string / str::parse did not finish under Kani and Verus has no floats: number("1e3") = 1000 and number(" 1 ") = NaN on the real code are NOT decided here); mod (CBMC models fmod nondeterministically); operands of kind Text or node-set in comparisons and arithmetic; concat, starts-with, contains, substring-before/after, normalize-space, translate (thin wrappers over str methods); function lookup and arity (func::table() does not compile under Kani)',
-        explanation='scalar semantics of the core library on the real crate: floor/ceiling/round/xpath_round for every f64 (ties towards +infinity, -0 for [-0.5,0)); boolean()/not()/number() coercions for every number and boolean; unary minus; the six comparison operators on every pair of Boolean/Number operands (coercion order of XPath 3.4, every comparison with NaN false except !=); + - * div as IEEE 754 (thorough tier); substring: substring_range selects exactly the positions round(start) <= p < round(start)+round(length) for every f64 and every length/position (Kani, loop-free), and substring() returns the characters of that range (Verus, all strings); string-length counts characters (Verus, String::len given its byte-length contract)',
+        not_decided='number<->string lexical forms (f64::to_string / str::parse did not finish under Kani and Verus has no floats: number("1e3") = 1000 and number(" 1 ") = NaN on the real code are NOT decided here); mod (CBMC models fmod nondeterministically) and div (the division circuit did not finish in 40 min under either SAT back end); operands of kind Text or node-set in comparisons and arithmetic; concat, starts-with, contains, substring-before/after, normalize-space, translate (thin wrappers over str methods); function lookup and arity (func::table() does not compile under Kani)',
+        explanation='scalar semantics of the core library on the real crate: floor/ceiling/round/xpath_round for every f64 (ties towards +infinity, -0 for [-0.5,0)); boolean()/not()/number() coercions for every number and boolean; unary minus; the six comparison operators on every pair of Boolean/Number operands (coercion order of XPath 3.4, every comparison with NaN false except !=); + - * as IEEE 754 and the three-argument substring_range (thorough tier, kissat); substring: substring_range selects exactly the positions round(start) <= p < round(start)+round(length) for every f64 and every length/position (Kani, loop-free), and substring() returns the characters of that range (Verus, all strings); string-length counts characters (Verus, String::len given its byte-length contract); translate maps by first occurrence and removes characters without counterpart (Verus, loop invariant over the recursive specification)',
     ),
     'C16': dict(
         standin_ops=['dom.text.length', 'dom.text.substring_data', 'dom.text.insert_data', 'dom.text.delete_data', 'dom.text.replace_data', 'dom.text.append_data', 'dom.text.set_data', 'dom.comment.length', 'dom.comment.substring_data', 'dom.comment.insert_data', 'dom.comment.delete_data', 'dom.comment.replace_data', 'dom.comment.append_data', 'dom.comment.set_data', 'dom.cdata.length', 'dom.cdata.substring_data', 'dom.cdata.insert_data', 'dom.cdata.delete_data', 'dom.cdata.replace_data', 'dom.cdata.append_data', 'dom.cdata.set_data', 'info.delete_char_range', 'info.insert_char_at'],
@@ -194,7 +194,7 @@ MANIFEST_TEXT = {
         technique='contract-based deductive verification (Verus postconditions on extracted real functions; complete loop-free Kani harnesses)',
         design_ref='DESIGN.md §4 C18'),
     'C09': dict(
-        level_text='Proof on the real crate, two engines. Kani/CBMC, loop-free harnesses over kani::any (complete, no unwinding): floor, ceiling, round, xpath_round for every f64; boolean/not/number coercions; unary minus; = != < <= > >= on every Boolean/Number operand pair; substring_range for every f64 start/length, every string length <= 2^53 and every position; + - * div in the thorough tier. Verus (all strings): string-length counts characters; substring returns the characters of the range substring_range computes. Lexical number<->string forms, mod, Text/node-set operands and the remaining string functions are NOT decided.',
+        level_text='Proof on the real crate, two engines. Kani/CBMC, loop-free harnesses over kani::any (complete, no unwinding): floor, ceiling, round, xpath_round for every f64; boolean/not/number coercions; unary minus; = != < <= > >= on every Boolean/Number operand pair; substring_range for every f64 start/length, every string length <= 2^53 and every position (two-argument form quick, three-argument form thorough with kissat, 17 min); + - * in the thorough tier. Verus (all strings): string-length counts characters; substring returns the characters of the range substring_range computes. Lexical number<->string forms, mod, Text/node-set operands and the remaining string functions are NOT decided.',
         level_note='Trusted: Kani+CBMC+SAT, Verus+Z3, the inert-node harness trick (A7), declarative references written from the XPath text, std shims on the Verus side. The two engines meet at the contract of substring_range.',
         technique='contract-based verification: contracts asserted in loop-free Kani harnesses over full-domain symbolic scalars on the real crate (no stubs), and Verus postconditions on extracted real functions with the Kani-proved callee contract assumed',
         design_ref='DESIGN.md §4 C09, §8, §9'),
